@@ -21,6 +21,7 @@ type Contract struct {
 	Props       []string
 	Impls       []string
 	InlineKnown bool
+	Prune       bool // ask the solver before every fork from the first path on
 	Kinds       map[string]bool
 	Trusted     bool
 	Modifies    []string
@@ -376,6 +377,10 @@ func (db *SpecDB) readFile(prog *ssa.Program, p *packages.Package, spkg *ssa.Pac
 			case "inline-known":
 				if con != nil {
 					con.InlineKnown = true
+				}
+			case "prune":
+				if con != nil {
+					con.Prune = true
 				}
 			case "preserves":
 				if con != nil {
